@@ -37,7 +37,7 @@ def concrete(m, v):
         return [concrete(m, x) for g, x in v.items if _true(m, zbool(g))]
     if isinstance(v, SymDict):
         return {k: concrete(m, x) for k, (g, x) in v.entries.items() if _true(m, zbool(g))}
-    if isinstance(v, tuple) and len(v) == 2 and v[0] == "__vstack__":
+    if isinstance(v, tuple) and len(v) == 2 and isinstance(v[0], str) and v[0] == "__vstack__":
         return [concrete(m, r) for r in v[1]]
     if isinstance(v, list):
         return [concrete(m, x.v if isinstance(x, GItem) else x) for x in v if not isinstance(x, GItem) or _true(m, zbool(x.g))]
